@@ -2,11 +2,6 @@
 pub open spec fn pick(comp: CompressionType, thr: usize, vlen: nat) -> CompressionType {
     if thr > 0 && vlen >= thr { comp } else { CompressionType::None }
 }
-/// one journaled operation, as a mathematical value
-pub enum OpV {
-    Item { keyspace_id: u64, key: Seq<u8>, value: Seq<u8>, value_type: ValueType },
-    Clear { keyspace_id: u64 },
-}
 pub open spec fn enc_op(op: OpV, comp: CompressionType, thr: usize) -> Seq<u8> {
     match op {
         OpV::Item { keyspace_id, key, value, value_type } => enc_item(keyspace_id, key, value, value_type, pick(comp, thr, value.len())),
